@@ -433,6 +433,123 @@ class DistWrapperH(_BeamBase):
         return dict(outputs=lp.tolist(), failures=failures)
 
 
+class DistBatchH(_BeamBase):
+    """batched SequentialLanguageModelDistribution (batch_size N, an initial state that conditions the model differently per element): for M draws,
+    slot [m, n] of the sample must be the path drawn for element n in walk m, lie in the support, and log_prob (recomputed, or cached when
+    cache_samples is set) must equal element n's chained model log-probability of that path.  cfg: V, eos, max_iters, M, N, cache"""
+    functions = DistWrapperH.functions
+
+    def _dist(self, lm, counter):
+        from pydrobert.torch.modules import RandomWalk
+        from pydrobert.torch.distributions import SequentialLanguageModelDistribution
+        c = self.cfg
+
+        def pre(mod, args):   # RandomWalk cannot be subclassed (its __call__ proxy recurses), so count the walks with a forward pre-hook
+            counter["m"] += 1
+            counter["t"] = 0
+
+        N = c["N"]
+        init = {"code": torch.zeros((N,), dtype=torch.long), "elem": torch.arange(N)}
+        walk = RandomWalk(lm, c["eos"])
+        walk.register_forward_pre_hook(pre)
+        return SequentialLanguageModelDistribution(walk, N, init, c["max_iters"], bool(c.get("cache")), False)
+
+    def symbolic(self, eng):
+        c = self.cfg
+        V, eos, T, M, N = c["V"], c["eos"], c["max_iters"], c["M"], c["N"]
+        table = self._sym_table(eng, range(N))
+        eng.stubs["_log_softmax"] = self._identity_log_softmax
+        ch = [[[eng.int(f"ch{m}_{t}_{n}", 0, V - 1) for n in range(N)] for t in range(T)] for m in range(M)]
+        counter = {"m": -1, "t": 0}
+
+        def multinomial_stub(e, func, ov, probs, num, replacement=False, generator=None):
+            m, t = counter["m"], counter["t"]
+            counter["t"] += 1
+            rows = probs.nested()
+            for n in range(N):
+                p = 0.0
+                for v in range(V):
+                    p = s_ite(s_cmp("eq", ch[m][t][n], v), rows[n][v], p)
+                e.assume(s_cmp("gt", p, 0.0))
+            return e.tensor([ch[m][t][n] for n in range(N)], (N, 1), torch.int64)
+
+        eng.stubs["multinomial"] = multinomial_stub
+        dist = self._dist(make_lm(V, table, True)(), counter)
+        sample = dist.sample(torch.Size([M]))
+        S = sample.shape[-1]
+        if tuple(sample.shape) != (M, N, S) or S > T:
+            return dict(outputs=[], viol=[(f"sample shape {tuple(sample.shape)}", True)])
+        insup = dist.support.check(sample).nested()
+        lp = dist.log_prob(sample).nested()
+        sn = sample.nested()
+        viol = []
+        for m in range(M):
+            for n in range(N):
+                toks = sn[m][n]
+                viol.append((f"sample [{m},{n}] is reported outside the support", s_not(insup[m][n])))
+                L = S
+                done = False        # the walk for element n: drawn tokens until (and including) its first eos, eos afterwards
+                for s_ in range(S):
+                    want = ch[m][s_][n] if eos is None else s_ite(done, eos, ch[m][s_][n])
+                    viol.append((f"sample [{m},{n}] token {s_} is not what was drawn for element {n} in walk {m}", s_not(s_cmp("eq", toks[s_], want))))
+                    if eos is not None:
+                        done = s_or(done, s_cmp("eq", ch[m][s_][n], eos))
+                if eos is not None:
+                    for s_ in range(S - 1, -1, -1):
+                        L = s_ite(s_cmp("eq", toks[s_], eos), s_ + 1, L)
+                score = chain_score_z(table, n, toks, L, V, S)
+                viol.append((f"sample [{m},{n}]: log_prob != element {n}'s chained model log-probability up to the first eos", s_not(s_eq_total(lp[m][n], score))))
+        return dict(outputs=[x for r in lp for x in r], viol=viol)
+
+    def concrete(self, vals):
+        c = self.cfg
+        V, eos, T, M, N = c["V"], c["eos"], c["max_iters"], c["M"], c["N"]
+        table = self._real_table(vals, range(N))
+        counter = {"m": -1, "t": 0}
+        orig = torch.multinomial
+
+        def fake(probs, num, replacement=False, generator=None):
+            m, t = counter["m"], counter["t"]
+            counter["t"] += 1
+            return torch.tensor([[vals[f"ch{m}_{t}_{n}"]] for n in range(N)])
+
+        torch.multinomial = fake
+        try:
+            dist = self._dist(make_lm(V, table, False)(), counter)
+            sample = dist.sample(torch.Size([M]))
+        finally:
+            torch.multinomial = orig
+        lp = dist.log_prob(sample)
+        insup = dist.support.check(sample)
+        failures = []
+        S = sample.shape[-1]
+        if tuple(sample.shape) != (M, N, S) or S > T:
+            return dict(outputs=[], failures=[f"sample shape {tuple(sample.shape)}"])
+        for m in range(M):
+            for n in range(N):
+                seq = sample[m, n].tolist()
+                if not bool(insup[m, n]):
+                    failures.append(f"sample [{m},{n}] {seq} reported outside the support")
+                drawn, done = [], False
+                for s_ in range(S):
+                    d = vals[f"ch{m}_{s_}_{n}"]
+                    drawn.append(eos if (done and eos is not None) else d)
+                    done = done or (eos is not None and d == eos)
+                if seq != drawn:
+                    failures.append(f"sample [{m},{n}] is {seq} but the tokens drawn for element {n} in walk {m} were {drawn}")
+                L = len(seq)
+                if eos is not None and eos in seq:
+                    L = seq.index(eos) + 1
+                try:
+                    score = sum(table[(n, code_of(tuple(seq[:t]), V))][seq[t]] for t in range(L))
+                except (KeyError, IndexError):
+                    failures.append(f"sample [{m},{n}] {seq} has out-of-vocabulary tokens")
+                    continue
+                if abs(score - lp[m, n].item()) > 1e-4 * (1 + abs(score)):
+                    failures.append(f"sample [{m},{n}] {seq}: log_prob {lp[m, n].item()} but element {n}'s chained log-probability is {score}")
+        return dict(outputs=lp.reshape(-1).tolist(), failures=failures)
+
+
 META = dict(
     functions=sorted(set(SeqLogProbsH.functions + GreedyCtcH.functions + RandomWalkH.functions + DistWrapperH.functions)),
     files=["src/pydrobert/torch/_decoding.py", "src/pydrobert/torch/_string.py"],
@@ -472,4 +589,6 @@ def tasks(tier):
         ts.append(task(PROP, M_, "RandomWalkH", V=V, eos=eos, max_iters=T, N=N))
     for V, eos, T, M in ((2, 1, 3, 2), (3, None, 2, 2), (2, 0, 2, 1)) if q else [(V, e, T, 2) for V in (2, 3) for e in [None] + list(range(V)) for T in (1, 2, 3)]:
         ts.append(task(PROP, M_, "DistWrapperH", V=V, eos=eos, max_iters=T, M=M))
+    for V, eos, T, M, N, cache in ((2, 1, 2, 2, 2, False), (2, None, 2, 2, 2, True), (2, 0, 2, 2, 2, True)) if q else [(2, e, T, 2, N, ca) for e in (None, 0, 1) for T in (1, 2, 3) for N in (2, 3) for ca in (False, True) if not (N == 3 and T == 3)]:
+        ts.append(task(PROP, M_, "DistBatchH", V=V, eos=eos, max_iters=T, M=M, N=N, cache=cache))
     return ts
